@@ -530,7 +530,9 @@ impl World {
         rng.shuffle(&mut order);
         // shapes first: make sure multi-segment / peering / long paths are not starved
         order.sort_by_key(|&i| std::cmp::Reverse((self.paths[i].2.uses_peering() as usize, self.paths[i].2.lens.len())));
-        let base_budget = if mode == "c01" { budget } else { budget * 3 / 8 };
+        let base_budget = if mode == "c01" { budget } else { budget / 4 + 1 };
+        // the directed families below leave a quarter of the budget to the random mutations
+        let cap = budget - budget / 4;
         let mut k = 0usize;
         while out.len() + 1 < base_budget.max(2) && k < order.len() {
             // alternate between the shape-sorted front and a random pick
@@ -553,6 +555,31 @@ impl World {
             }
         }
         if mode == "c01" { return out; }
+        // directed: a peering hop field moved behind a segment change (finding
+        // C13-peer-link-segment-change): up-segment hop fields [leaf, X regular] as segment 0,
+        // [X peering hop, Y peering hop] as segment 1, both against construction direction
+        let mut made = 0;
+        for (s, d, pp, _) in self.paths.iter().filter(|p| p.2.uses_peering() && p.2.lens.len() == 2 && p.2.lens[0] == 2) {
+            if made >= 1 || out.len() >= budget { break; }
+            let Some((_, _, r, _)) = self.paths.iter().find(|q| q.0 == *s && !q.2.uses_peering() && q.2.lens[0] >= 2 && q.2.hops[0] == pp.hops[0] && q.2.infos[0].flags & 1 == 0) else { continue };
+            let q = Pkt { src: *s, dst: *d, ci: 0, ch: 0, onehop: false, lens: vec![2, 2],
+                infos: vec![r.infos[0].clone(), Info { flags: 0, segid: pp.infos[0].segid, ts: pp.infos[0].ts }],
+                hops: vec![r.hops[0].clone(), r.hops[1].clone(), pp.hops[1].clone(), pp.hops[2].clone()] };
+            let c = self.case(&self.topo, &self.real, now, *s, 0, q, 2, "peer_xover_splice".into(), vec![]);
+            if c.out.end == 4 { continue; }
+            out.push(c); made += 1;
+        }
+        // directed: attacker-spliced segment changes -- for the ordered pairs (arrival link type,
+        // departure link type) realizable at the ASes of this topology, a packet of two
+        // 2-hop segments built from AUTHENTIC hop fields of the control plane's segments whose
+        // crossover at AS X uses exactly that pair; injected at X on the arrival interface
+        if out.len() + 4 <= budget {
+            let mut n_x = 0;
+            for c in self.xover_pair_cases(rng, now, sum) {
+                if out.len() >= cap || n_x >= (if budget < 20 { 3 } else { 5 }) { break; }
+                out.push(c); n_x += 1;
+            }
+        }
         // directed: hop field lifetime.  An offered path minted anew with a different timestamp
         // per segment and ExpTime values from EXP_VALUES (and random ones); the clock at the last
         // second of the path's lifetime, one before and one after -- by the SPECIFICATION formula
@@ -562,7 +589,7 @@ impl World {
             let want = (budget / 4).max(3);
             let mut made = 0usize;
             let mut tries = 0usize;
-            while !plain.is_empty() && made < want && out.len() < budget && tries < 12 {
+            while !plain.is_empty() && (made < 3 || (made < want && out.len() < cap)) && tries < 12 {
                 tries += 1;
                 // longer paths first
                 let i = if tries == 1 { *plain.iter().max_by_key(|&&i| (self.paths[i].2.lens.len(), self.paths[i].2.hops.len())).unwrap() } else { *rng.pick(&plain) };
@@ -600,38 +627,13 @@ impl World {
                 let mut clocks: Vec<(u64, &str)> = vec![(t_end - 1, "expiry-1"), (t_end, "expiry"), (t_end + 1, "expiry+1")];
                 if rng.chance(1, 3) { clocks.push((t_max - 1, "youngest_ts-1")); clocks.push((t_max, "youngest_ts")); }
                 for (clk, nm) in clocks {
-                    if out.len() >= budget { break; }
+                    if made >= 3 && out.len() >= cap { break; }
                     let c = self.case(&self.topo, &self.real, clk as u32, *s, 0, q.clone(), 7, format!("lifetime exp={e} clock={nm} ts={:?} exps={:?}", ts, exp), vec![]);
                     if c.out.end == 4 { continue; }
                     sum.count(&format!("lifetime.exp{}", if EXP_VALUES.contains(&e) { e.to_string() } else { "rand".into() }));
                     sum.count(&format!("lifetime.clock.{nm}.{}", if c.out.end == 0 && matches!(c.out.trace.last(), Some((a, _, 2, _)) if a == d) { "delivered" } else { "refused" }));
                     out.push(c); made += 1;
                 }
-            }
-        }
-        // directed: a peering hop field moved behind a segment change (finding
-        // C13-peer-link-segment-change): up-segment hop fields [leaf, X regular] as segment 0,
-        // [X peering hop, Y peering hop] as segment 1, both against construction direction
-        let mut made = 0;
-        for (s, d, pp, _) in self.paths.iter().filter(|p| p.2.uses_peering() && p.2.lens.len() == 2 && p.2.lens[0] == 2) {
-            if made >= 1 || out.len() >= budget { break; }
-            let Some((_, _, r, _)) = self.paths.iter().find(|q| q.0 == *s && !q.2.uses_peering() && q.2.lens[0] >= 2 && q.2.hops[0] == pp.hops[0] && q.2.infos[0].flags & 1 == 0) else { continue };
-            let q = Pkt { src: *s, dst: *d, ci: 0, ch: 0, onehop: false, lens: vec![2, 2],
-                infos: vec![r.infos[0].clone(), Info { flags: 0, segid: pp.infos[0].segid, ts: pp.infos[0].ts }],
-                hops: vec![r.hops[0].clone(), r.hops[1].clone(), pp.hops[1].clone(), pp.hops[2].clone()] };
-            let c = self.case(&self.topo, &self.real, now, *s, 0, q, 2, "peer_xover_splice".into(), vec![]);
-            if c.out.end == 4 { continue; }
-            out.push(c); made += 1;
-        }
-        // directed: attacker-spliced segment changes -- for the ordered pairs (arrival link type,
-        // departure link type) realizable at the ASes of this topology, a packet of two
-        // 2-hop segments built from AUTHENTIC hop fields of the control plane's segments whose
-        // crossover at AS X uses exactly that pair; injected at X on the arrival interface
-        if out.len() + 4 <= budget {
-            let mut n_x = 0;
-            for c in self.xover_pair_cases(rng, now, sum) {
-                if out.len() >= budget || n_x >= 5 { break; }
-                out.push(c); n_x += 1;
             }
         }
         // directed: more than 64 hop fields with CurrHF = 63: the pointer must not wrap (routing.rs guards)
